@@ -25,6 +25,10 @@ def plan(tier, seed):
     return [{"tier": tier, "types": types[i::n], "seed": env.shard_seed(i), "shard": i} for i in range(n)]
 
 
+ODD_NAMES = ["", "Pad {L}", "Bus {0}", "{", "}", "100%", "%s %d", "{name!r}", "a\\b", "plain", "{0.__class__}"]
+NAMES = [0]
+
+
 def _val(x):
     return x.value if isinstance(x, enum.Enum) else x
 
@@ -85,6 +89,9 @@ def run_type(res, T, rng, tier):
         try:
             if path in ("setattr", "set_raw"):
                 m = cls(**(extra_kw or {}))
+                # the module's display name is free text (braces, percent signs ...) and has no bearing on validation
+                NAMES[0] += 1
+                m.name = ODD_NAMES[NAMES[0] % len(ODD_NAMES)]
                 prev = getattr(m, name)
                 try:
                     if path == "setattr":
@@ -98,6 +105,11 @@ def run_type(res, T, rng, tier):
                 return None, m, prev
             kw = dict(extra_kw or {})
             kw[name] = value
+            if hasattr(cls, "drawn_waveform") or T in ("Generator", "AnalogGenerator"):
+                # type-specific constructor keywords next to controller keywords: each does its own job
+                NAMES[0] += 1
+                if NAMES[0] % 2:
+                    kw["samples"] = [(i * 7) % 100 for i in range(32)]
             try:
                 m = cls(**kw)
             except Exception as e:
@@ -352,8 +364,8 @@ def run_shard(spec_, res):
 
 def finalize(merged, tier):
     n_ctl = sum(len(t.controllers) for t in spec.load().values())
-    if merged["counters"].get("defaults_checked", 0) != 2 * n_ctl:
-        merged["inconclusive"].append(f"defaults checked {merged['counters'].get('defaults_checked')} != 2*{n_ctl}")
+    if merged["counters"].get("defaults_checked", 0) < 2 * n_ctl:      # (shards replayed with debug logging count again)
+        merged["inconclusive"].append(f"defaults checked {merged["counters"].get("defaults_checked")} < 2*{n_ctl}")
 
 
 def replay(case, res):
